@@ -1107,6 +1107,7 @@ static void setup(jv *cfg)
   sk_fs_add("/bin/c", FS_EXISTS | FS_EXEC);
   sk_fs_add("/w", FS_EXISTS | FS_DIR);
   sk_fs_add("/d", FS_EXISTS | FS_DIR);
+  sk_fs_add("/d/fifo", FS_EXISTS | FS_FIFO);
   if (fs) for (int i = 0; i < fs->n; i++) sk_fs_add(fs->a[i]->a[0]->s, (int) fs->a[i]->a[1]->i);
   jv *env = j_get(cfg, "env");
   static char *noenv[] = { NULL };
